@@ -248,9 +248,14 @@ def run(ctx):
                 continue
             sid = c0 + ci
             option = case["option"]
-            if res.get("hang") or "crash" in res or "exception" in res:
-                ctx.violation("engine-failure:" + option, "the engine hung / crashed / raised on a valid script: %s" %
-                              (res.get("exception") or res.get("crash") or "hang"), small(case))
+            if res.get("hang"):
+                # non-termination is C10's property; here the run is only counted (nothing to check step by step)
+                ctx.count("engine_hang_skipped")
+                ctx.notes.append("a run did not finish within the time-out and was skipped (%s)" % option)
+                continue
+            if "crash" in res or "exception" in res:
+                ctx.violation("engine-failure:" + option, "the engine crashed / raised on a valid script: %s" %
+                              (res.get("exception") or res.get("crash")), small(case))
                 continue
             arr = res["arr"]
             ns = arr["ns"]
